@@ -21,12 +21,12 @@ func init() { register(c08{}) }
 
 func (c08) ID() string { return "C08" }
 func (c08) Rule() string {
-	return "regions of 1..5 segments (lengths 1..6, gaps>=1, forward, complemented, and mixed-strand lists) taken from Location.Region() on a 40..60-residue sequence (unique complement-invariant ids, and random IUPAC letters so the complement is visible) x all five modifier forms x offsets in [-len-3,len+3]: exhaustive for 1..3 segments on a fixed layout, seeded for 1..5. Oracle (spliced-coordinate model M3): Resize(m).Locate(seq).Bytes() == window [lo,hi) of the outward-extended spliced sequence; zero-length results compared by Head() (either side accepted at a junction); windows leaving the sequence are skipped; AsModifier(m.String())==m. Locators assembled from known parts (modifier | point | range | complement(range) | selector by key and /label regexp, each optionally @modifier, and bare @modifier): the regions returned, compared through extraction in table order, must be the model's. non-trivial: >=2 segments or a non-zero offset; distinct: canonical case text. CLI layer: gts extract [-v] <locator> (one or two locators, with modifiers) of the real binary (--no-cache) on generated records and streams: one record per distinct located region with the residues the spliced-coordinate model gives. Selectors whose regular expression holds = (/function=aa=Sec, =v, k=v=w) on tables whose values hold = themselves. Regions whose last part turns around at the coordinate where the previous one ends (opposite strands meeting in one coordinate); a full-length record emitted by gts extract must be the extraction of the located region."
+	return "regions of 1..5 segments (lengths 1..6, gaps>=1, forward, complemented, and mixed-strand lists) taken from Location.Region() on a 40..60-residue sequence (unique complement-invariant ids, and random IUPAC letters so the complement is visible) x all five modifier forms x offsets in [-len-3,len+3]: exhaustive for 1..3 segments on a fixed layout, seeded for 1..5. Oracle (spliced-coordinate model M3): Resize(m).Locate(seq).Bytes() == window [lo,hi) of the outward-extended spliced sequence; zero-length results compared by Head() (either side accepted at a junction); windows leaving the sequence are skipped; AsModifier(m.String())==m. Locators assembled from known parts (modifier | point | range | complement(range) | selector by key and /label regexp, each optionally @modifier, and bare @modifier): the regions returned, compared through extraction in table order, must be the model's. non-trivial: >=2 segments or a non-zero offset; distinct: canonical case text. CLI layer: gts extract [-v] <locator> (one or two locators, with modifiers) of the real binary (--no-cache) on generated records and streams: one record per distinct located region with the residues the spliced-coordinate model gives. Selectors whose regular expression holds = (/function=aa=Sec, =v, k=v=w) on tables whose values hold = themselves. Regions whose last part turns around at the coordinate where the previous one ends (opposite strands meeting in one coordinate); a full-length record emitted by gts extract must be the extraction of the located region. Locators M1@M2 (a bare modifier resized again)."
 }
 func (c08) RequiredBuckets(tier string) []string {
 	out := []string{"segments:1", "segments:2", "segments:3", "segments:4", "segments:5", "strand:fwd", "strand:rev", "strand:mixed",
 		"mod:^", "mod:$", "mod:^$", "mod:^^", "mod:$$", "window:inside", "window:extends-5'", "window:extends-3'", "window:zero-length", "window:crosses-junction",
-		"modifier-roundtrip", "locator:modifier", "locator:point", "locator:range", "locator:complement", "locator:selector", "locator:selector@mod", "locator:@mod", "locator:no-match", "locator:table-not-sorted", "locator:selector-regexp-holds-an-equals-sign", "region:strand-turns-at-a-shared-coordinate"}
+		"modifier-roundtrip", "locator:modifier", "locator:point", "locator:range", "locator:complement", "locator:selector", "locator:selector@mod", "locator:@mod", "locator:no-match", "locator:table-not-sorted", "locator:selector-regexp-holds-an-equals-sign", "locator:modifier@mod", "region:strand-turns-at-a-shared-coordinate"}
 	out = append(out, "cmd:extract", "cmd:extract -v", "extract:two-locators", "stream:records-independent", "cache-on:after-sibling")
 	return out
 }
@@ -199,7 +199,31 @@ func (m c08) checkLocator(c *fw.Ctx, r *rand.Rand, tab []gts.Feature, seqB []byt
 	var xstr, bucket string
 	withMod := r.Intn(2) == 0
 	kind := modKinds[r.Intn(len(modKinds))]
-	switch r.Intn(6) {
+	switch r.Intn(7) {
+	case 6: // a bare modifier as X of X@M: the whole sequence resized, resized again
+		k1 := []string{"^$", "^^", "$$"}[r.Intn(3)]
+		a, b := r.Intn(7), r.Intn(7)
+		var m1 gts.Modifier
+		switch k1 {
+		case "^$":
+			m1 = mkMod(k1, a, -b)
+		case "^^":
+			m1 = mkMod(k1, a, a+2+b)
+		default:
+			m1 = mkMod(k1, -a-2-b, -a)
+		}
+		lo, hi := 0, 0
+		switch k1 {
+		case "^$":
+			lo, hi = a, L-b
+		case "^^":
+			lo, hi = a, a+2+b
+		default:
+			lo, hi = L-a-2-b, L-a
+		}
+		xs = []xr{{[]model.DSeg{{lo, hi}}}}
+		xstr, bucket = m1.String(), "locator:modifier@mod"
+		withMod = true
 	case 0: // bare modifier (whole sequence)
 		xs = []xr{{[]model.DSeg{{0, L}}}}
 		xstr, bucket = "", "locator:modifier"
